@@ -300,6 +300,24 @@ def entry_grid(ctx, dist):
         add(both, "exc\t%s\t%s" % (J(ec2), J(with_meta(G.pub_of(ec), meta, x))), x, "exchange, remote key")
         add(both, "exc\t%s\t%s" % (J(dict(ec2, alg="ECMR")), J(with_meta(dict(G.pub_of(ec), alg="ECMR"), meta, x))), x, "exchange ECMR, remote key")
     dist["entry-point grant grid"] = len(both) + len(impl_only)
+    # direct encryption: the key IS the content key; a key that declares a content algorithm may be used under that one only
+    # (pairs of equal key size are the ones no length check catches), whole-call forms jose_jwe_enc / jose_jwe_dec
+    ENCLEN = {"A128GCM": 16, "A192GCM": 24, "A256GCM": 32, "A128CBC-HS256": 32, "A192CBC-HS384": 48, "A256CBC-HS512": 64}
+    dreq = []
+    for ka, kl in ENCLEN.items():
+        for he, hl in ENCLEN.items():
+            if kl != hl:
+                continue
+            dk = G.oct_key(rnd, kl, alg=ka)
+            dreq.append(("jweenc\t%s\t-\t%s\t00" % (J({"protected": {"alg": "dir", "enc": he}}), J(dk)), ka == he, "dir key declaring %s under enc %s" % (ka, he)))
+    for (c_, ok_, what_), o in zip(dreq, G.harness(bdir, [x[0] for x in dreq])):
+        got = "CRASH" if o.startswith("CRASH") else ("R" if o == "ERR" else "A")
+        if got == "CRASH":
+            ctx["rep"].violation("crash:entry:dir", "crash: " + o[:200], {"case": c_})
+        elif (got == "A") != ok_:
+            ctx["rep"].violation("dir-key-alg:%s" % ("mismatch-accepted" if got == "A" else "match-refused"),
+                                 "%s: jose_jwe_enc %s" % (what_, "encrypts (the key's declared algorithm is not the one applied)" if got == "A" else "refuses"), {"case": c_, "implementation": o[:300]})
+    dist["dir keys declaring a content algorithm x header enc of the same key size"] = len(dreq)
     return both, impl_only, want
 
 
